@@ -8,6 +8,10 @@ from .src import Source
 
 # (name, program text defining RESULT or raising, expected repr of RESULT / "raise <Exc>")
 PROGRAMS = [
+    ("bytes-repeat-and-concatenate", '''
+pop = b"0"
+RESULT = (pop * 3 + b"g1;", 2 * b"ab", (b"x", b"y", b"z")[2 - 1], b"(" + b"t", str(12).encode(), bytes([4]))
+''', "(b'000g1;', b'abab', b'y', b'(t', b'12', b'\\x04')"),
     ("class-creation-hooks-init_subclass-then-metaclass-init", '''
 log = []
 class M(type):
